@@ -6,6 +6,7 @@ CONSTANTS
   Unbounded = 2147483647
   Thresh = 1000
   CapMode = "min"
+  OnSignal = "return"
   Exact = TRUE
 POSTCONDITION TraceAccepted
 CHECK_DEADLOCK FALSE
